@@ -699,6 +699,43 @@ static void check_iterators(troot *root, int n)
     COLLECT(a_avl_post_foreach_reverse(cur, root));
     seq_check("post_foreach_reverse", got, ngot, overflow, ref_seq[4], n);
 #endif
+    /* the upper-case macro forms (caller-declared iteration variable) */
+    {
+        tnode *cur;
+#define COLLECT2(loop)                                  \
+    do {                                                \
+        ngot = 0;                                       \
+        overflow = 0;                                   \
+        loop                                            \
+        {                                               \
+            if (ngot > n) { overflow = 1; break; }      \
+            got[ngot++] = cur;                          \
+        }                                               \
+    } while (0)
+#ifdef VF_TREE_RBT
+        COLLECT2(A_RBT_FOREACH(cur, root));
+        seq_check("FOREACH-macro", got, ngot, overflow, ref_seq[0], n);
+        COLLECT2(A_RBT_PRE_FOREACH(cur, root));
+        seq_check("PRE_FOREACH-macro", got, ngot, overflow, ref_seq[1], n);
+        COLLECT2(A_RBT_PRE_FOREACH_REVERSE(cur, root));
+        seq_check("PRE_FOREACH_REVERSE-macro", got, ngot, overflow, ref_seq[2], n);
+        COLLECT2(A_RBT_POST_FOREACH(cur, root));
+        seq_check("POST_FOREACH-macro", got, ngot, overflow, ref_seq[3], n);
+        COLLECT2(A_RBT_POST_FOREACH_REVERSE(cur, root));
+        seq_check("POST_FOREACH_REVERSE-macro", got, ngot, overflow, ref_seq[4], n);
+#else
+        COLLECT2(A_AVL_FOREACH(cur, root));
+        seq_check("FOREACH-macro", got, ngot, overflow, ref_seq[0], n);
+        COLLECT2(A_AVL_PRE_FOREACH(cur, root));
+        seq_check("PRE_FOREACH-macro", got, ngot, overflow, ref_seq[1], n);
+        COLLECT2(A_AVL_PRE_FOREACH_REVERSE(cur, root));
+        seq_check("PRE_FOREACH_REVERSE-macro", got, ngot, overflow, ref_seq[2], n);
+        COLLECT2(A_AVL_POST_FOREACH(cur, root));
+        seq_check("POST_FOREACH-macro", got, ngot, overflow, ref_seq[3], n);
+        COLLECT2(A_AVL_POST_FOREACH_REVERSE(cur, root));
+        seq_check("POST_FOREACH_REVERSE-macro", got, ngot, overflow, ref_seq[4], n);
+#endif
+    }
     /* single steps from every node: the iterator started anywhere yields exactly the suffix */
     step_check("next", T_(next), 0);
     step_check("pre_next", T_(pre_next), 1);
@@ -767,8 +804,31 @@ static void check_tear(troot *root, hnode **nodes, int n, int variant, int k)
         lchild[h->id] = h->n.left ? (int)((hnode *)h->n.left)->id : -1;
         rchild[h->id] = h->n.right ? (int)((hnode *)h->n.right)->id : -1;
     }
-    vf_count_dyn(variant == 0 ? "tear-full" : variant == 1 ? "tear-reset-next" : variant == 2 ? "tear-interrupted" : "tear-from-explicit-node", 1);
+    vf_count_dyn(variant == 0 ? "tear-full" : variant == 1 ? "tear-reset-next" : variant == 2 ? "tear-interrupted" : variant == 3 ? "tear-from-explicit-node" : "tear-fortear-macro-runs", 1);
     if (variant == 3 && n) { next = &nodes[k % n]->n; }
+    if (variant == 4)
+    {
+        /* the documented macro form: children must come before parents, every element exactly once, freed at once */
+        int cnt = 0, bad = 0;
+#ifdef VF_TREE_RBT
+        a_rbt_fortear(c4, nx4, root)
+#else
+        a_avl_fortear(c4, nx4, root)
+#endif
+        {
+            hnode *h = (hnode *)c4;
+            ++vf.evals;
+            if (cnt >= n || !is_live(c4)) { bad = 1; break; }
+            if ((lchild[h->id] >= 0 && !handed[lchild[h->id]]) || (rchild[h->id] >= 0 && !handed[rchild[h->id]])) { bad = 2; break; }
+            handed[h->id] = 1;
+            node_free(h);
+            ++cnt;
+        }
+        vf_count_dyn("tear-fortear-macro", 1);
+        if (bad || cnt != n || root->node) { vf_viol(TN "/fortear-macro/not-every-element-once-children-first", "macro tear-down: %d of %d handed out, code %d, root %s", cnt, n, bad, root->node ? "not null" : "null"); }
+        VF_ADD("tear-steps", cnt);
+        return;
+    }
     for (;;)
     {
         if (variant == 2 && steps == k) { break; }
@@ -948,6 +1008,10 @@ static void bfs_case_iter(uint64_t c, vf_rng *r)
             build_shape(&root, s, nodes);
             vf_log("shape %s (n=%u): tear-down interrupted after %d steps", hex, n, k);
             check_tear(&root, nodes, (int)n, 2, k);
+            free_all_live();
+            build_shape(&root, s, nodes);
+            vf_log("shape %s (n=%u): tear-down through the fortear macro", hex, n);
+            check_tear(&root, nodes, (int)n, 4, 0);
             free_all_live();
             /* every node as the explicit starting node */
             for (unsigned q = 0; q < n; ++q)
